@@ -1,5 +1,8 @@
 /* drv_c06 — serialized seeds are lossless, canonical and strictly validated (DESIGN 3/C06) */
+#define _GNU_SOURCE
 #include "pv.h"
+#include <sys/mman.h>
+#include <unistd.h>
 
 static unsigned g_mask = 7;
 static unsigned g_maskcalls;
@@ -23,8 +26,22 @@ static void init(void) {
  * 0..7 in turn: the storage type is a byte array, callers may keep it at any address (e.g. inside a packed record) */
 static unsigned g_align;
 static uint8_t* buf_alloc(uint8_t** base) { unsigned off = g_align++ % 8; *base = malloc(32 + off); pv_countf(1, "buffers.alignment_mod8.%u", (unsigned)((uintptr_t)(*base + off) % 8)); return *base + off; }
+/* the storage argument of polyseed_load is const: every 16th buffer lives on a read-only page and ends at an inaccessible one
+ * (a write to it, or a read past its 32nd byte, faults) */
+static uint8_t* g_rop; static long g_ps;
+static uint8_t* ro_place(const uint8_t buf[32], unsigned off) {
+    if (!g_rop) { g_ps = sysconf(_SC_PAGESIZE); g_rop = mmap(NULL, (size_t)g_ps * 2, PROT_READ | PROT_WRITE, MAP_PRIVATE | MAP_ANONYMOUS, -1, 0); if (g_rop == MAP_FAILED) pv_fatal("C06: mmap"); mprotect(g_rop + g_ps, (size_t)g_ps, PROT_NONE); }
+    mprotect(g_rop, (size_t)g_ps, PROT_READ | PROT_WRITE);
+    uint8_t* b = g_rop + g_ps - 32 - (off % 4) * 0;     /* ends exactly at the guard page */
+    memcpy(b, buf, 32);
+    mprotect(g_rop, (size_t)g_ps, PROT_READ);
+    return b;
+}
 static void judge(const uint8_t buf[32], const char* cls) {
-    uint8_t* bbase; uint8_t* b = buf_alloc(&bbase); memcpy(b, buf, 32);
+    static unsigned nth; bool ro = (++nth % 16) == 7;
+    uint8_t* bbase = NULL; uint8_t* b;
+    if (ro) { b = ro_place(buf, nth); PV_COUNT("buffers.on_a_read_only_page_before_a_guard_page", 1); }
+    else { b = buf_alloc(&bbase); memcpy(b, buf, 32); }
     pv_mseed want; int ws = pv_m_load(b, g_mask, &want);
     int live0 = pv_ledger_live();
     polyseed_data* s = NULL;
